@@ -19,6 +19,7 @@ import (
 	"math"
 	"math/rand"
 	"os"
+	"path/filepath"
 	"strings"
 	"testing"
 	"time"
@@ -488,6 +489,10 @@ func emitForeign(cs *vh.Cases, st *vh.Stats, b []byte) {
 func TestC18(t *testing.T) {
 	env := vh.Load(t)
 	r := env.Rng
+	// The driver's search-after-a-break runs the thorough tier into out/C18/searchN
+	// under a short time box: use a medium volume there (full permission sweep once,
+	// a few thousand histories) so that the evaluation of the cases stays bounded.
+	search := strings.HasPrefix(filepath.Base(env.Out), "search")
 	st := vh.NewStats("a history is non-trivial when at least one metadata/content setter (or a WithStat constructor) was applied and the final GetBytes succeeded; a foreign message when it has more than 2 bytes and FSNodeFromBytes accepted it; distinct = distinct (constructor, op list) or distinct byte string")
 	cs := vh.NewCases(env, "From V Require Import lib.UnixFsPb model.M_C18.\nOpen Scope Z_scope.\n", "case", "check_case", 250)
 
@@ -579,6 +584,9 @@ func TestC18(t *testing.T) {
 	// translated shuffles themselves are swept exhaustively inside Coq on every run.
 	exts := []uint32{0, 1, 0xFFFFF}
 	rounds := env.Pick(1, 3)
+	if search {
+		rounds = 1
+	}
 	off := int(uint64(env.Seed) % 4)
 	fewBits := func(p int) bool { return p&(p-1) == 0 || (p&(p-1))&((p&(p-1))-1) == 0 }
 	for round := 0; round < rounds; round++ {
@@ -629,6 +637,9 @@ func TestC18(t *testing.T) {
 
 	// ---- random histories ----
 	nh := env.Pick(900, 40000)
+	if search {
+		nh = 3000
+	}
 	for i := 0; i < nh; i++ {
 		h := genInit(r, -1)
 		for j, n := 0, r.Intn(9); j < n; j++ {
@@ -652,6 +663,9 @@ func TestC18(t *testing.T) {
 		emitForeign(cs, st, b)
 	}
 	nf := env.Pick(400, 15000)
+	if search {
+		nf = 1500
+	}
 	for i := 0; i < nf; i++ {
 		emitForeign(cs, st, genForeign(r, st))
 		st.Count("kind:foreign")
